@@ -358,3 +358,34 @@ def graph_history_check(ctx, fam, label, gen, r, n=6, rounds=3):
                           "same %d edges" % (label, what, len(E)))
             return
         ctx.judged(("history", fam, label, step, tuple(sorted(E))), sample={"family": fam, "history": what, "edges": sorted(E)[:10]})
+
+
+import contextlib as _contextlib
+
+
+@_contextlib.contextmanager
+def few_descriptors_left(headroom=40):
+    """Runs the body in a process that may open only `headroom` more files than it has open now (soft RLIMIT_NOFILE):
+    the situation of a long-running program after many thousands of calls, if any call forgets to close something.
+    A library that closes what it opens never notices."""
+    import os
+    import resource
+    soft, hard = resource.getrlimit(resource.RLIMIT_NOFILE)
+    try:
+        now = [int(x) for x in os.listdir("/proc/self/fd")]
+        top = max(now) + 1
+    except OSError:
+        top = 64
+    resource.setrlimit(resource.RLIMIT_NOFILE, (min(top + headroom, hard if hard != resource.RLIM_INFINITY else top + headroom), hard))
+    try:
+        yield
+    finally:
+        resource.setrlimit(resource.RLIMIT_NOFILE, (soft, hard))
+
+
+def open_descriptors():
+    import os
+    try:
+        return len(os.listdir("/proc/self/fd"))
+    except OSError:
+        return -1
